@@ -1,11 +1,28 @@
-"""C03 — program-level pipeline check (DESIGN.md §3 C03): theorems of Props/C03.lean, T1 dispatch tables, T2 kernel skeletons,
-T3 differential of harness/pipe.cpp (real library) against the Lean mechanism `mech` and the sequential reading `spec`."""
+"""C03 — everything the library owns is released exactly once, on every path (DESIGN.md §3 C03).
+
+Sequential / program-level part: theorems of Props/C03.lean over the pipeline model, T1 dispatch tables, T2 kernel
+skeletons, T3 differential of harness/pipe.cpp (instance-counted functors, live heap blocks after every line) against
+the Lean mechanism `mech` and the sequential reading `spec` (vlib/pipecheck.py).
+
+Concurrent part: Props/C03.lean also carries the ownership corollaries of the concurrent models (Unique, Shared, When,
+Coro, Strand, Pool, Wait, Event, CoMutex, CoSharedMutex); on the implementation every schedule-explorer harness is re-run
+with the ownership monitor of harness/common/own.hpp (vlib/owncheck.py): leak at quiescence / double free / write after
+free / crash on poisoned memory, each with scenario + choice string as replay."""
+from vlib import owncheck
 from vlib import pipecheck
 
 
 def run(res, tier):
     pipecheck.run(res, 'C03', tier)
+    n0 = len(res.violations)
+    owncheck.stage(res, tier)
+    if any(not no_input for (_, no_input, _) in res.violations[n0:]):
+        # the monitor found a failing schedule: a broken obligation (e.g. a T2 tie of one of the imported concurrent models)
+        # is then not `no-failing-input-found` (DESIGN §2.4: found ⇒ the input is the violation)
+        res.violations = [v for v in res.violations if not (v[1] and v[0].endswith('_obligations.txt'))]
 
 
 def replay(path):
+    if owncheck.is_own_replay(path):
+        return owncheck.replay(path)
     return pipecheck.replay('C03', path)
